@@ -164,6 +164,49 @@ func mergeParallel(w *load.World, c *core.Collector, f *ssa.Function, props []st
 			}
 		}
 	}
+	if or == nil && and == nil {
+		// "combine := roaring64.FastAnd; if disjunction { combine = roaring64.FastOr }; combine(sets...)"
+		for _, b := range f.Blocks {
+			for _, in := range b.Instrs {
+				call, ok := in.(*ssa.Call)
+				if !ok {
+					continue
+				}
+				phi, ok := call.Call.Value.(*ssa.Phi)
+				if !ok {
+					continue
+				}
+				okAll, nOr, nAnd := true, 0, 0
+				for i, e := range phi.Edges {
+					g, _ := e.(*ssa.Function)
+					pred := phi.Block().Preds[i]
+					switch {
+					case g != nil && (strings.HasSuffix(g.String(), "roaring64.FastOr") || strings.HasSuffix(g.String(), "roaring64.Or")):
+						nOr++
+						if !edgeOnlyVia(disjTrue, pred, phi.Block()) {
+							okAll = false
+						}
+					case g != nil && (strings.HasSuffix(g.String(), "roaring64.FastAnd") || strings.HasSuffix(g.String(), "roaring64.And")):
+						nAnd++
+						if !edgeOnlyVia(disjFalse, pred, phi.Block()) {
+							okAll = false
+						}
+					default:
+						okAll = false
+					}
+				}
+				if nOr == 0 || nAnd == 0 {
+					continue
+				}
+				if okAll {
+					c.Add("MERGE", "set-algebra", core.OK, w.At(call), "", props...)
+				} else {
+					c.Add("MERGE", "set-algebra", core.Violation, w.At(call), "_or does not select the union of the sub-results, or _and not their intersection", props...)
+				}
+				goto algebraDone
+			}
+		}
+	}
 	switch {
 	case or == nil || and == nil:
 		c.Add("MERGE", "set-algebra", core.Violation, w.Position(f.Pos()), "the merge does not compute both a union and an intersection of the sub-results", props...)
@@ -257,6 +300,16 @@ algebraDone:
 			}
 		}
 	}
+	// "valid := isDisjunction || set.Contains(id)": the condition is a phi whose incoming values are
+	// the constant true on the disjunction edge and the membership test otherwise
+	contains = append(contains, phiCondEdges(f, append(append([]ssax.Edge{}, disjTrue...), contains...), func(v ssa.Value) bool {
+		call, ok := v.(*ssa.Call)
+		if !ok {
+			return false
+		}
+		g := call.Call.StaticCallee()
+		return g != nil && g.Name() == "Contains" && strings.Contains(g.String(), "roaring64")
+	})...)
 	nApp := 0
 	for _, wr := range writes {
 		call, isAppend := wr.(*ssa.Call)
@@ -393,7 +446,18 @@ func mergePaging(w *load.World, c *core.Collector, props []string) {
 		c.Add("MERGE", "anchor:SearchPoints", core.Undecided, "", "Shard.SearchPoints not found", props...)
 		return
 	}
-	// the slice whose result is returned
+	// the slice whose result is returned (in SearchPoints or in a helper that cuts the page)
+	hasPage := func(g *ssa.Function) bool {
+		for _, b := range g.Blocks {
+			for _, in := range b.Instrs {
+				if sl, ok := in.(*ssa.Slice); ok && isSearchResultSlice(sl.Type()) && sl.High != nil && sl.Low != nil {
+					return true
+				}
+			}
+		}
+		return false
+	}
+	f = homeOf(f, hasPage)
 	var page *ssa.Slice
 	for _, b := range f.Blocks {
 		for _, in := range b.Instrs {
@@ -476,12 +540,26 @@ func mergePaging(w *load.World, c *core.Collector, props []string) {
 		probs = append(probs, "a bound of the page is not clamped to the number of results (min(…, len)): an offset beyond the results panics")
 	}
 	olo, ohi := ssax.Prov(lo), ssax.Prov(hi)
+	if deepHas(w, lo, "field:Offset") {
+		olo["field:Offset"] = true
+	}
+	if deepHas(w, lo, "field:Limit") {
+		olo["field:Limit"] = true
+	}
 	if _, arith := lo.(*ssa.BinOp); arith || !olo["field:Offset"] || olo["field:Limit"] {
 		probs = append(probs, "the page does not start at the requested offset")
 	}
 	okHi := false
 	if bo, ok := hi.(*ssa.BinOp); ok && bo.Op == token.ADD {
 		ox, oy := ssax.Prov(bo.X), ssax.Prov(bo.Y)
+		for _, l := range []string{"field:Offset", "field:Limit"} {
+			if deepHas(w, bo.X, l) {
+				ox[l] = true
+			}
+			if deepHas(w, bo.Y, l) {
+				oy[l] = true
+			}
+		}
 		_, ax := bo.X.(*ssa.BinOp)
 		_, ay := bo.Y.(*ssa.BinOp)
 		if !ax && !ay && ((ox["field:Offset"] && oy["field:Limit"]) || (oy["field:Offset"] && ox["field:Limit"])) {
@@ -770,4 +848,64 @@ func flagEdges(fn *ssa.Function, flag ssa.Value, inverted bool) (onTrue, onFalse
 		onFalse = append(onFalse, ssax.Edge{From: b, Succ: e})
 	}
 	return
+}
+
+// edgeOnlyVia: the control-flow edge pred->succ is taken only after one of the given edges: it is
+// one of them, or pred itself is reached only through one.
+func edgeOnlyVia(edges []ssax.Edge, pred, succ *ssa.BasicBlock) bool {
+	for _, e := range edges {
+		if e.From == pred && e.Succ < len(pred.Succs) && pred.Succs[e.Succ] == succ {
+			return true
+		}
+	}
+	return onlyViaAny(edges, pred)
+}
+
+// phiCondEdges: for branches on a boolean phi (the lowering of "a || b" and "a && b" stored in a
+// variable), the edges that are taken only when a gate holds: every incoming value of the phi
+// either is the opposite constant (that path never takes the edge), satisfies leaf (the value
+// being true implies the gate), or is the matching constant arriving over an edge that is itself
+// taken only after one of the base edges.
+func phiCondEdges(f *ssa.Function, base []ssax.Edge, leaf func(ssa.Value) bool) []ssax.Edge {
+	var out []ssax.Edge
+	for _, b := range f.Blocks {
+		ifi, ok := b.Instrs[len(b.Instrs)-1].(*ssa.If)
+		if !ok {
+			continue
+		}
+		cond, neg := ifi.Cond, false
+		if u, ok := cond.(*ssa.UnOp); ok && u.Op == token.NOT {
+			cond, neg = u.X, true
+		}
+		phi, ok := cond.(*ssa.Phi)
+		if !ok {
+			continue
+		}
+		okAll, any := true, false
+		for i, e := range phi.Edges {
+			if cb, isC := ssax.ConstBool(e); isC {
+				if !cb {
+					continue
+				}
+				if !edgeOnlyVia(base, phi.Block().Preds[i], phi.Block()) {
+					okAll = false
+				}
+				continue
+			}
+			if leaf(e) {
+				any = true
+				continue
+			}
+			okAll = false
+		}
+		if !okAll || !any {
+			continue
+		}
+		s := 0
+		if neg {
+			s = 1
+		}
+		out = append(out, ssax.Edge{From: b, Succ: s})
+	}
+	return out
 }
